@@ -315,10 +315,11 @@ def generate(unit_path, repo, canary=False):
             out.append(subst(it['payload']))
         elif k == 'struct':
             out.append(gen_struct(repo, src, it['arg']))
-        elif k == 'const_bytes':
-            out.append(gen_const_bytes(src, it['arg'], env))
-        elif k == 'const_eval':
-            out.append(gen_const_eval(src, it['arg'], env))
+        elif k in ('const_bytes', 'const_eval'):
+            toks = it['arg'].split()
+            copts = dict(t.split('=', 1) for t in toks[1:])
+            csrc = open(os.path.join(repo, copts['file'])).read() if 'file' in copts else src
+            out.append((gen_const_bytes if k == 'const_bytes' else gen_const_eval)(csrc, toks[0], env))
         elif k == 'open':
             out.append(it['arg'] + '\n')
         elif k == 'close':
@@ -332,8 +333,18 @@ def generate(unit_path, repo, canary=False):
             info['gen_line_end'] = ''.join(out).count('\n')
             infos.append(info)
         elif k == 'assumed':
-            t, info = gen_assumed(src, it)
-            out.append(t + '\n')
+            # `file=<path>`: the signature is taken from another source file (a callee whose contract is
+            # proved in its own unit; this unit checks the caller against that contract)
+            asrc = src
+            if 'file' in it['opts']:
+                fp = os.path.join(repo, it['opts']['file'])
+                if not os.path.exists(fp):
+                    raise ExtractError("anchor lost: %s missing" % fp)
+                asrc = open(fp).read()
+            t, info = gen_assumed(asrc, it)
+            if 'file' in it['opts']:
+                info['from_file'] = it['opts']['file']
+            out.append(subst(t) + '\n')
             infos.append(info)
     out.append('\n} // verus!\nfn main() {}\n')
     return ''.join(out), {'unit': u.name, 'source': u.source, 'functions': infos}
